@@ -87,6 +87,37 @@ def check_fn_ok(facts, f):
     result requires rest.is_empty()."""
     trees, rests = parser_bound_locals(f)
     if not rests:
+        # the checker may hand the parser to a private helper: `parses_whole(new.as_str(), xml_parser::cdsect)` with
+        # `fn parses_whole(xml, parse) { let (rest, _) = parse(xml)?; Ok(rest.is_empty()) }`
+        for n in walk(f["body"]):
+            if n.get("k") == "Call" and n["f"].get("k") == "Path":
+                g = facts.fns.get(n["f"].get("rid") or n["f"].get("id"))
+                parsers = [str(a.get("path", "")) for a in n.get("args", []) if a.get("k") == "Path" and str(a.get("path", "")).startswith("xml_parser::")]
+                if g is None or "body" not in g or len(parsers) != 1 or g["crate"] != "xml_info":
+                    continue
+                pi = [i for i, a in enumerate(n["args"]) if a.get("k") == "Path" and str(a.get("path", "")).startswith("xml_parser::")][0]
+                params = g.get("params") or []
+                if pi >= len(params) or params[pi].get("p") != "Bind":
+                    continue
+                plid = params[pi]["lid"]
+                grest = {}
+                for l in lets(g["body"]):
+                    if "init" not in l:
+                        continue
+                    init, tried = strip_try(l["init"])
+                    if tried and init.get("k") == "Call" and init["f"].get("k") == "Path" and init["f"].get("lid") == plid and \
+                            l["pat"].get("p") == "Tuple" and len(l["pat"]["pats"]) == 2 and l["pat"]["pats"][0].get("p") == "Bind":
+                        grest[l["pat"]["pats"][0]["lid"]] = parsers[0]
+                # the helper's answer is Ok(rest.is_empty()) and the checker returns the helper's answer unchanged
+                tail = f["body"]
+                while tail.get("k") == "Block" and "expr" in tail:
+                    tail = tail["expr"]
+                if grest and tail is n:
+                    for m in walk(g["body"]):
+                        if m.get("k") == "Call" and str(m["f"].get("path", "")).endswith("::Ok") and m["args"] and is_rest_empty_test(m["args"][0], grest):
+                            if parsers[0] == "xml_parser::content":
+                                return False, "text handed to a generic helper: the `children.is_empty()` requirement cannot be seen"
+                            return True, parsers[0]
         return False, "no `let (rest, _) = xml_parser::..(..)?`"
     # the value returned is Ok(<expr containing rest.is_empty()>)
     for n in walk(f["body"]):
